@@ -1,27 +1,13 @@
 (* Proofs over the inventory of shared state REGENERATED from the fastparquet sources on every run
-   (translators/sharedstate.py -> PqGen.SharedInv).  Compiled per run with -Q <gen_dir> PqGen. *)
+   (translators/sharedstate.py -> PqGen.SharedInv).  Compiled per run with -Q <gen_dir> PqGen.
+   Hard obligations only: the tables are well formed.  The static footprint clauses live in GenSharedInvAdvisory.v. *)
 From Coq Require Import NArith List Bool String.
 From Pq Require Import Conc.Interleave Conc.Footprint Proofs.FootprintProofs.
 From PqGen Require Import SharedInv.
 Import ListNotations.
 
-(* the tables are well formed: ids are keys *)
 Theorem inv_location_ids_distinct : ids_distinct (map l_id inv_locations) = true.
 Proof. vm_compute. reflexivity. Qed.
 
 Theorem inv_site_ids_distinct : ids_distinct (map s_id inv_sites) = true.
 Proof. vm_compute. reflexivity. Qed.
-
-(* the static footprint condition holds for EVERY write site of the package: no store into module-level /
-   default-argument / class-level state after import time follows a refuted pattern (augmented assignment,
-   read-modify-write, set-and-restore, publish-then-update, delete, builtin mutating call) *)
-Theorem inv_sites_static_ok : forallb site_static_ok inv_sites = true.
-Proof. vm_compute. reflexivity. Qed.
-
-Theorem inv_static_shared_sites_not_refuted : forall s, In s inv_sites ->
-  s_import s = false -> base_static_shared (s_base s) = true -> pat_refuted (s_pat s) = false.
-Proof.
-  intros s Hin Hi Hb. pose proof inv_sites_static_ok as H. rewrite forallb_forall in H.
-  destruct (site_static_ok_spec s (H s Hin)) as [X|[X|X]]; congruence.
-Qed.
-Print Assumptions inv_static_shared_sites_not_refuted.
